@@ -57,7 +57,7 @@ Proof. exact dump_parse_roundtrip. Qed.
 Print Assumptions C01_dump_parse_roundtrip.
 
 (* the hypotheses are satisfiable by a non-trivial input: s: str = "1e3", n: Optional[int] = 7, l: List[str] =
-   ["null", "a: b"], d: List[Limits] = [{low: None, high: 2}] (dataclass-typed value), dumped with skip_default — and the model run indeed returns the configuration *)
+   ["null", "a: b"], d: List[Limits] = [{low: None, high: 2}] (dataclass-typed value), m: a subclass spec over a default spec, dumped with skip_default — and the model run indeed returns the configuration *)
 Example C01_roundtrip_hyps_example :
   case_class id_yl yaml_skipdef ex_leaves = 0%N /\
   Forall (fun lw => leaf_stable id_yl false (fst lw) (snd lw)) ex_leaves /\
@@ -78,6 +78,24 @@ Theorem C01_save_nested_none_refuted :
   exists lf w w', rt some_text save_default lf w = Some w' /\ veq w' w = false.
 Proof. exact save_nested_none_witness. Qed.
 Print Assumptions C01_save_nested_none_refuted.
+
+(* skip_default with nulls kept: a subclass spec over the declared default None makes the dump itself raise
+   (`default.get("class_path")` on None) *)
+Theorem C01_skip_default_none_default_refuted :
+  fx_subclass_trim = false /\
+  rt some_text yaml_skipdef {| lf_key := kx; lf_ty := base_ty; lf_def := VNone |}
+     (spec p_base [(VStr k_init_args, VDict [(VStr ka, VInt 1)])]) = None.
+Proof. exact skip_default_none_default_witness. Qed.
+Print Assumptions C01_skip_default_none_default_refuted.
+
+(* skip_default deletes a spec whose class and init_args are the default's although its dict_kwargs differ *)
+Theorem C01_skip_default_dict_kwargs_refuted :
+  fx_subclass_trim = false /\
+  exists w', rt some_text yaml_skipdef {| lf_key := kx; lf_ty := base_ty; lf_def := spec p_kw [] |}
+               (spec p_kw [(VStr k_dict_kwargs, VDict [(VStr ka, VInt 1)])]) = Some w' /\
+             veq w' (spec p_kw [(VStr k_dict_kwargs, VDict [(VStr ka, VInt 1)])]) = false.
+Proof. exact skip_default_dict_kwargs_witness. Qed.
+Print Assumptions C01_skip_default_dict_kwargs_refuted.
 
 (* skip_default compares with ==: int 1 over the default 1.0 is dropped and re-parses to the float *)
 Theorem C01_skip_default_eq_refuted :
